@@ -488,6 +488,16 @@ func scribbleOCI(o *rspec.LinuxResources) {
 }
 
 func runC14(c C14Case) ev.Outcome {
+	o := runC14conv(c)
+	if o.Fail == "" {
+		if d := aliasChecks(c); d != "" {
+			return ev.Failf("%s", d)
+		}
+	}
+	return o
+}
+
+func runC14conv(c C14Case) ev.Outcome {
 	o := ev.Outcome{Classes: []string{"kind:" + c.Kind}}
 	switch c.Kind {
 	case "res_oci":
